@@ -328,11 +328,17 @@ def judge(rig, vec, res, kernel_check=False, paths=None):
         if not -32768 <= v1 <= 32767:
             kf = KF_WRAP
     res.outcomes.add(("wrong", str(kf)) + shape)
+    seen = res.__dict__.setdefault("_c26_sigs", {})
     for kind, e, o in wrong:
-        res.violation(dict(case, desired=desired), e, o, kf=kf,
-                      sig=core.digest([kind, e.split(" (")[0][:60]
-                                       if kind != "law" else "law",
-                                       str(kf)]),
+        sig = core.digest([kind, e.split(" (")[0][:60]
+                           if kind != "law" else "law", str(kf)])
+        res.count("wrong_results")
+        # keep a few reproducers per signature and worker chunk, count all
+        seen[sig] = seen.get(sig, 0) + 1
+        if seen[sig] > 3:
+            res.count("violations_not_stored_same_signature")
+            continue
+        res.violation(dict(case, desired=desired), e, o, kf=kf, sig=sig,
                       note=("wrong velocity" if kind == "law" else
                             "consequence violated"))
 
